@@ -23,7 +23,8 @@ from .extract import Inconclusive, Repo, Subs, git_head
 
 VERIF = K.VERIF
 UNITS_DIR = os.path.join(VERIF, "units")
-EVID_DIR = os.path.join(VERIF, "evidence")
+# runs against another tree (VERIF_REPO, used by tools/try_seed_wt.sh) must not overwrite the evidence of /repo
+EVID_DIR = os.path.join(VERIF, "evidence") if not os.environ.get("VERIF_REPO") else os.path.join(K.BUILD, "evidence_other_tree")
 REPLAY_DIR = os.path.join(VERIF, "replay")
 KNOWN = os.path.join(VERIF, "KNOWN_FINDINGS.txt")
 JOBS = int(os.environ.get("VERIF_JOBS", "8"))
